@@ -116,9 +116,9 @@ KeyHex(key) == StripZeros(Hex2(key[4]) \o Hex2(key[3]) \o Hex2(key[2]) \o Hex2(k
 CfgName(key) == IF CfgIdx(key) # {} THEN Defs.cfgdb[CHOOSE i \in CfgIdx(key) : \A j \in CfgIdx(key) : i <= j].n
                 ELSE "CFG_0x" \o KeyHex(key)
 CfgType(key) == IF CfgIdx(key) # {} THEN Defs.cfgdb[CHOOSE i \in CfgIdx(key) : \A j \in CfgIdx(key) : i <= j].t
-                ELSE "X00" \o ToString(StorSize((key[4] \div 16) % 8))
+                ELSE "X00" \o ToString(StorSize(key[4] \div 16))
 CfgSize(key) == IF CfgIdx(key) # {} THEN TypeSize(Defs.cfgdb[CHOOSE i \in CfgIdx(key) : \A j \in CfgIdx(key) : i <= j].t)
-                ELSE StorSize((key[4] \div 16) % 8)
+                ELSE StorSize(key[4] \div 16)   \* (bit 31 is not masked off: the library - and its test suite - refuse 0x8.......)
 
 IsCfgVal(m, cls, id) == cls = 6 /\ ((id = 139 /\ m = GET) \/ (id = 138 /\ m = SET))
 
@@ -248,7 +248,16 @@ Parse(m, cls, id, pbf, P) ==
     LET dn == SelectDefName(m, cls, id, P) IN
     IF Len(P) = 0 THEN [def |-> "EMPTY", attrs |-> <<>>, err |-> "", off |-> 0]
     ELSE IF dn = "" THEN [def |-> dn, attrs |-> <<>>, err |-> "no-definition", off |-> 0]
-    ELSE IF dn = "uncovered" THEN [def |-> dn, attrs |-> <<>>, err |-> "uncovered", off |-> 0]
+    ELSE IF dn = "uncovered" THEN
+         \* a variant selector of the tree that this specification does not know: a payload laid out exactly as the entry that bears
+         \* the message's own name is still expected to be parsed by that entry; anything else is left unjudged ("uncovered")
+         LET base == Identity(cls, id, P) IN
+         IF ~HasDef(m, base) THEN [def |-> dn, attrs |-> <<>>, err |-> "uncovered", off |-> 0]
+         ELSE LET es == Table(m)[base]
+                  st == WalkSeq(es, 1, "", [off |-> 0, attrs |-> <<>>, err |-> ""],
+                                [P |-> P, pbf |-> pbf, mode |-> m, cls |-> cls, id |-> id, top |-> es])
+              IN IF st.err = "" /\ st.off = Len(P) THEN [def |-> base, attrs |-> st.attrs, err |-> "", off |-> st.off]
+                 ELSE [def |-> dn, attrs |-> <<>>, err |-> "uncovered", off |-> 0]
     ELSE IF dn = "NOMINAL" THEN [def |-> dn, attrs |-> <<>>, err |-> "", off |-> Len(P)]
     ELSE LET es == Table(m)[dn]
              st == WalkSeq(es, 1, "", [off |-> 0, attrs |-> <<>>, err |-> ""],
